@@ -173,6 +173,24 @@ def g_jmp_label(tier):
                     yield mkprog(base + '/%s-if/%s' % (t, an), [If(B('==', Call('f', []), C(k2)), A(V('vc'), C(1)), A(V('vc'), C(2)))], funcs=[f()])
 
 
+def g_sret(tier):
+    """the value returned by a `signed char` / `unsigned char` / plain `char` function used in sign-sensitive positions"""
+    one, two = (lambda: A(V('sc'), C(1))), (lambda: A(V('sc'), C(2)))
+    for rt, src in itertools.product(('s8', 'u8', 'pc8'), ('sa', 'va', 'Y')):
+        f = lambda: Func('f', rt, [], Block([Return(V(src))]))
+        g = lambda: Func('f', rt, [('s8', 'x')], Block([If(B('<', V('x'), C(0)), Return(V('x'))), Return(B('+', V('x'), C(1)))]))
+        for fn, mk, call in (('leaf', f, lambda: Call('f', [])), ('param', g, lambda: Call('f', [V('sb')]))):
+            base = 'w5/sret/%s/%s/%s' % (rt, src, fn)
+            if fn == 'param' and src != 'sa': continue
+            # (sign tests against 0 for signed results - no overflow is possible there; range tests for unsigned ones)
+            tests = (('lt0', lambda: B('<', call(), C(0))), ('ge0', lambda: B('>=', call(), C(0)))) if rt == 's8' else \
+                    (('lt1', lambda: B('<', call(), C(1))), ('ge128', lambda: B('>=', call(), C(128))), ('gt200', lambda: B('>', call(), C(200))))
+            for tn, t in tests:
+                yield mkprog(base + '/if/' + tn, [If(t(), one(), two())], funcs=[mk()])
+                yield mkprog(base + '/tern/' + tn, [A(V('sc'), Tern(t(), C(1), C(2)))], funcs=[mk()])
+            if rt == 's8': yield mkprog(base + '/copy-cmp', [A(V('sb'), call()), If(B('<', V('sb'), C(0)), one(), two())], funcs=[mk()])
+
+
 def g_wave4(tier):
     yield from g_hwflags(tier)
     yield from g_logic_else(tier)
@@ -182,3 +200,4 @@ def g_wave4(tier):
     yield from g_reload_flags(tier)
     yield from g_signflag(tier)
     yield from g_jmp_label(tier)
+    yield from g_sret(tier)
